@@ -45,16 +45,17 @@ fn check_number_back(j: &J, c: Cls) {
     }
 }
 
-fn roundtrip_number(mk: impl Fn() -> J, c: Cls) {
-    check_view(mk(), c);
-    // From<Value<V>>
-    let back = J::from(mk().into_value());
+/// Converting back, decomposed (lesson 7): `into_value` is checked by `check_view` for every
+/// source number (variant AND payload of the view); the two conversions back are checked
+/// for EVERY payload of each view variant, the variant being concrete in the harness.
+/// Their composition is the round trip.
+fn back_number(mk: impl Fn() -> Value<J>, c: Cls) {
+    let back = J::from(mk());
     check_number_back(&back, c);
     forget(back);
-    // Deserr for serde_json::Value
     crate::rec::reset();
     crate::rec::all_continue();
-    let r = deserialize::<J, J, R>(mk());
+    let r = <J as deserr::Deserr<R>>::deserialize_from_value::<J>(mk(), deserr::ValuePointerRef::Origin);
     match &r {
         Ok(j) => check_number_back(j, c),
         Err(_) => assert!(false, "C13: deserializing a document serde_json can hold into serde_json::Value failed"),
@@ -66,9 +67,9 @@ fn roundtrip_number(mk: impl Fn() -> J, c: Cls) {
 #[kani::proof]
 #[kani::unwind(12)]
 #[kani::stub(alloc::fmt::format, fmt_stub)]
-pub fn c13_q_u64() {
+pub fn c13_q_view_u64() {
     let x: u64 = kani::any();
-    roundtrip_number(|| J::Number(Number::from(x)), Cls::U(x));
+    check_view(J::Number(Number::from(x)), Cls::U(x));
     kani::cover!(x > i64::MAX as u64, "above i64::MAX");
 }
 
@@ -76,10 +77,10 @@ pub fn c13_q_u64() {
 #[kani::proof]
 #[kani::unwind(12)]
 #[kani::stub(alloc::fmt::format, fmt_stub)]
-pub fn c13_q_i64() {
+pub fn c13_q_view_i64() {
     let x: i64 = kani::any();
     let c = if x >= 0 { Cls::U(x as u64) } else { Cls::I(x) };
-    roundtrip_number(|| J::Number(Number::from(x)), c);
+    check_view(J::Number(Number::from(x)), c);
     kani::cover!(x == i64::MIN, "i64::MIN");
     kani::cover!(x >= 0, "non-negative i64 is a non-negative integer");
 }
@@ -88,13 +89,61 @@ pub fn c13_q_i64() {
 #[kani::proof]
 #[kani::unwind(12)]
 #[kani::stub(alloc::fmt::format, fmt_stub)]
-pub fn c13_q_f64() {
+pub fn c13_q_view_f64() {
     let f: f64 = kani::any();
-    kani::assume(f.is_finite());
-    // serde_json holds every finite f64 given through from_f64 as a float (also integral ones and -0.0)
-    roundtrip_number(|| J::Number(Number::from_f64(f).unwrap()), Cls::F(f.to_bits()));
+    match Number::from_f64(f) {
+        // serde_json holds every finite f64 given through from_f64 as a float (also integral ones and -0.0)
+        Some(n) => check_view(J::Number(n), Cls::F(f.to_bits())),
+        None => assert!(!f.is_finite(), "harness: from_f64 refuses only non-finite floats"),
+    }
     kani::cover!(f == 0.0 && f.is_sign_negative(), "-0.0");
     kani::cover!(f == 9007199254740993.0, "integral float beyond 2^53");
+}
+
+#[cfg(kani)]
+#[kani::proof]
+#[kani::unwind(12)]
+#[kani::stub(alloc::fmt::format, fmt_stub)]
+pub fn c13_q_back_integer() {
+    let x: u64 = kani::any();
+    back_number(|| Value::Integer(x), Cls::U(x));
+    kani::cover!(x > i64::MAX as u64, "above i64::MAX");
+}
+
+#[cfg(kani)]
+#[kani::proof]
+#[kani::unwind(12)]
+#[kani::stub(alloc::fmt::format, fmt_stub)]
+pub fn c13_q_back_negative() {
+    let x: i64 = kani::any();
+    // a negative-integer view converts back to the same integer (held as u64 when it is not negative)
+    let c = if x >= 0 { Cls::U(x as u64) } else { Cls::I(x) };
+    back_number(|| Value::NegativeInteger(x), c);
+    kani::cover!(x == i64::MIN, "i64::MIN");
+}
+
+#[cfg(kani)]
+#[kani::proof]
+#[kani::unwind(12)]
+#[kani::stub(alloc::fmt::format, fmt_stub)]
+pub fn c13_q_back_float() {
+    let f: f64 = kani::any();
+    if f.is_finite() {
+        back_number(|| Value::Float(f), Cls::F(f.to_bits()));
+    } else {
+        // not a document serde_json can hold: From gives null, Deserr reports exactly one error
+        let back = J::from(Value::<J>::Float(f));
+        assert!(matches!(back, J::Null), "C13: a non-finite float converts to null through From");
+        forget(back);
+        crate::rec::reset();
+        crate::rec::all_continue();
+        let r = <J as deserr::Deserr<Rec<0>>>::deserialize_from_value::<J>(Value::Float(f), deserr::ValuePointerRef::Origin);
+        crate::rec::post_c01(&r);
+        assert!(r.is_err(), "C13: a non-finite float cannot become a serde_json number");
+        forget(r);
+    }
+    kani::cover!(f == 0.0 && f.is_sign_negative(), "-0.0");
+    kani::cover!(f.is_nan(), "NaN");
 }
 
 fn leaf_roundtrip(mk: impl Fn() -> J, same: impl Fn(&J) -> bool, k: ValueKind) {
